@@ -240,7 +240,7 @@ pub fn run(r: &mut Report, ctx: &Ctx) {
                             }
                         }
                     }
-                    if i == 1 {
+                    {
                         let a = tlsh::hash_file(&path).map(|h| h.to_string()).map_err(|e| format!("{e:?}"));
                         let b = VNormal::hash_file(&path).map(|h| h.to_string()).map_err(|e| format!("{e:?}"));
                         if a != b {
